@@ -62,7 +62,8 @@ pub mod lab {
     pub const UNINIT_ADOPT: u32 = 45;
     pub const CLONE_FROM: u32 = 46;
     pub const CLONE_FROM_SAME: u32 = 47;
-    pub const NAMES: [&str; 48] = [
+    pub const DEAD_CLONE_FROM: u32 = 48;
+    pub const NAMES: [&str; 49] = [
         "group>=2_collected",
         "group>=3_collected",
         "zero_count_death_with_records",
@@ -111,6 +112,7 @@ pub mod lab {
         "adopted_before_assume_init",
         "clone_from",
         "clone_from_same_object",
+        "clone_from_of_handle_to_destroyed_object",
     ];
 }
 
